@@ -64,6 +64,8 @@ func (u *User) init() error {
 		}
 	}
 
+	// 重新构建；init 也用于更新（CopyFrom），不能在旧的匹配器后追加
+	u.pushMatchers, u.pullMatchers = nil, nil
 	initMatchers(u.PushAccess, &u.pushMatchers)
 	initMatchers(u.PullAccess, &u.pullMatchers)
 	return nil
